@@ -37,6 +37,7 @@ def plan(tier, seed):
     k = 40000 if tier == "quick" else 3000000
     specs = [{"kind": "strategy", "start": p * (n // NSHARDS), "count": n // NSHARDS} for p in range(NSHARDS)]
     specs += [{"kind": "funfit", "start": p * (k // NSHARDS), "count": k // NSHARDS} for p in range(NSHARDS)]
+    specs += [{"kind": "huge", "start": p, "count": 1} for p in range(2 if tier == "quick" else 16)]
     return specs
 
 
@@ -59,8 +60,16 @@ def run_strategy_case(ctx, kind_, idx):
     strat = R.WINDOW[int(rng.integers(0, 4))]
     adaptive = "Adaptive" in strat
     n = R.gen_n(rng)
+    huge = None
+    if kind_ == "huge":
+        # a day of per-second averages: more than 2**16 intervals, smallest factors (the cost is per sample)
+        strat = R.WINDOW[idx % 4]
+        adaptive = "Adaptive" in strat
+        n = int(rng.choice([2, 3]))
+        huge = int(rng.integers(66000, 90001))
     kw, a = R.gen_params(rng, strat, n, smooth_free=False, exp_hi=4.0)
-    x, y, meta = R.gen_series(rng, 2, 40, ties_share=0.0 if adaptive else 0.3, real_valued=adaptive, long_share=R.LONG_SHARE)
+    x, y, meta = R.gen_series(rng, 2, 40, ties_share=0.0 if adaptive else 0.3, real_valued=adaptive, long_share=R.LONG_SHARE,
+                              force_m=huge)
     if rng.uniform() < 0.6 and meta["xcls"] in ("uniform", "integer", "epoch"):
         from .. import gen
         x, meta["xcls"] = gen.gen_x(rng, len(x), "nonuniform")
@@ -111,6 +120,12 @@ def run_strategy_case(ctx, kind_, idx):
             left = abs(yl[k] - (yl[k - 1] if k > 0 else yl[0]))
             right = abs(yl[k + 1] - yl[k])
             if left <= 1e-6 * scale or right <= 1e-6 * scale:   # windows are read off the output: need visible jumps
+                continue
+            # ... and a visible FIRST transition sample: next to the plateau a power-shaped transition deviates by only
+            # jump * (1/a)**exp, which must stand clear of the 1e-9 * scale reading threshold of observed_windows
+            e_eff = max(float(kw.get("exp", 2.0)), 1.0) if strat.startswith("Exp") else 1.0
+            if min(left, right) * float(a) ** (-e_eff) <= 1e-7 * scale:
+                ctx.count("adaptive_windows:first_transition_sample_below_reading_threshold")
                 continue
             ctx.monitor("c06:adaptive_windows")
             L, Rr = observed_windows(ys, y, n, k, scale)
@@ -187,10 +202,10 @@ def run_funfit_case(ctx, kind_, idx):
 
 
 def run(ctx, spec):
-    f = run_strategy_case if spec["kind"] == "strategy" else run_funfit_case
+    f = run_funfit_case if spec["kind"] == "funfit" else run_strategy_case
     for idx in range(spec["start"], spec["start"] + spec["count"]):
         f(ctx, spec["kind"], idx)
 
 
 def replay(ctx, case):
-    (run_strategy_case if case["kind"] == "strategy" else run_funfit_case)(ctx, case["kind"], case["idx"])
+    (run_funfit_case if case["kind"] == "funfit" else run_strategy_case)(ctx, case["kind"], case["idx"])
